@@ -50,6 +50,9 @@ pub fn run(a: &Args) -> Report {
     let root = Rng::new(a.seed);
     for case in 0..n {
         let mut rng = root.fork(case);
+        if std::env::var("VERIF_TRACE").is_ok() {
+            eprintln!("case {case}");
+        }
         let cfg = GenCfg {
             containers: rng.chance(1, 3),
             subsume: rng.chance(1, 3),
@@ -65,8 +68,15 @@ pub fn run(a: &Args) -> Report {
         let mut bad = false;
         'outer: for c in cmds.iter() {
             for text in steps_of(c) {
+                if run::skip_run_on_large_db(&semi, &text) {
+                    rep.count("runs_skipped_large_db", 1);
+                    continue;
+                }
                 let is_run = text.starts_with("(run");
                 let before = if is_run { semi.num_tuples() } else { 0 };
+                if std::env::var("VERIF_TRACE").is_ok() {
+                    eprintln!("  [{}] {text}", semi.num_tuples());
+                }
                 let o1 = run::run(&mut semi, &text);
                 let o2 = run::run(&mut naive, &text);
                 log.push(text.clone());
